@@ -111,6 +111,11 @@ pub fn eval(p: &Parameters, variant: usize, q: &Joints, eps: f64, limits: usize)
     let cond = smax / smin;
     let mut fails = Vec::new();
     let tag = format!("{}/eps{:e}{}", variant_name(variant), eps, match limits { 0 => "", l if (l - 1) % 2 == 0 => "/joint-at-upper-limit", _ => "/joint-at-lower-limit" });
+    // an unrelated robot's Jacobian at the same joints first (a quarter of the evaluations): nothing may carry over
+    if (q[1].to_bits() ^ q[3].to_bits().rotate_left(23) ^ eps.to_bits()) % 4 == 0 {
+        let decoy = OPWKinematics::new(make(0.07, 0.03, -0.02, [0.33, 0.41, 0.39, 0.06], [-1, 1, 1, -1, 1, -1], [0.1, -0.2, 0.3, 0.0, 0.5, -0.4], 6));
+        let _ = Jacobian::new(&decoy, q, eps);
+    }
     let j = jac(p, variant, q, eps, limits);
     let reach = 1.0 + p.a1.abs() + p.a2.abs() + p.b.abs() + p.c1.abs() + p.c2.abs() + p.c3.abs() + p.c4.abs() + norm(t.t) + norm(b.t);
     let bound = eps * reach + 4e-15 * reach / eps;
